@@ -164,6 +164,7 @@ type Conn struct {
 	rtimer     *time.Timer
 	Tag        string // free label for the harness (e.g. "hostile")
 	sent, rcvd uint64
+	window     int // >0: Write blocks while this many bytes are queued undelivered (see cut.go SetWindowLocked)
 }
 
 func (c *Conn) ID() uint64           { return c.id }
@@ -248,6 +249,20 @@ func (c *Conn) Write(p []byte) (int, error) {
 	}
 	if len(p) == 0 {
 		return 0, nil
+	}
+	// optional send window (back-pressure of a slow path): only for endpoints a
+	// harness selected; everything else never blocks in Write
+	for c.window > 0 && c.queuedLocked() >= c.window {
+		c.rcond.Wait()
+		if c.closed {
+			return 0, ErrClosed
+		}
+		if c.reset {
+			return 0, ErrReset
+		}
+		if c.peerClosed || c.wclosed {
+			return 0, ErrPipe
+		}
 	}
 	c.out = append(c.out, segment{data: append([]byte(nil), p...)})
 	c.sent += uint64(len(p))
@@ -473,6 +488,9 @@ func (n *Net) Deliver(c *Conn, max int) []byte {
 	}
 	n.Stats.Delivered++
 	n.Stats.DeliveredBytes += uint64(len(data))
+	if c.window > 0 {
+		c.rcond.Broadcast() // a writer may be waiting for room in its send window
+	}
 	if p.closed || p.reset {
 		n.Stats.Dropped++
 		return data
